@@ -302,3 +302,82 @@ fin_instance!(vs_pim_fin_lastack, VirtualSocketState::LastAck { our_fin: SeqNr(O
 // @unwindset make_tx_at=9,__vs::record=37
 // @tier C
 fin_instance!(vs_pim_fin_synacksent, VirtualSocketState::SynAckSent { count: 1 }, 0);
+
+// ---- ST_DATA ------------------------------------------------------------------------------------
+
+// @verif id=VS.pim.data props=C07,C04,C01,C10,C11 tier=quick timeout=1500 mem=16
+// @functions VirtualSocket::process_incoming_message (ST_DATA), VirtualSocket::force_immediate_ack, VirtualSocket::send_ack, VirtualSocket::send_control_packet, VirtualSocket::outgoing_header, SegmentSizes::on_payload_delivered, UtpHeader::serialize
+// @bounds state Established; DATA packet (3-byte payload) with seq_nr anywhere in expected-3 ..= expected+3 across the 16-bit wrap, ANY ack_nr/window/timestamps; add_remove result ANY of its contract (Consumed{n <= 3, bytes <= 48}, AlreadyPresent, Unavailable); reassembly queue empty/non-empty before and after: all 4 combinations; SACK value to attach: none or any 16 leading bits; transport ready or blocked
+// @asserts a packet behind the cumulative position never reaches the queue and forces an immediate ACK (duplicate); otherwise the queue is addressed at offset seq_nr - (last consumed + 1) exactly once; the acknowledgement position advances by exactly the consumed sequence numbers (never backwards) and unacknowledged bytes by the consumed bytes; if anything is or was held out of order an ACK goes out IN THE SAME CALL carrying ack_nr == the new position and the SACK; a blocked transport keeps the immediate ACK pending; otherwise no datagram
+// @stubs UserRx::add_remove / assembler_empty / selective_ack -> contract stubs (DESIGN C01.R3 assume-guarantee cut)
+// @unwindset make_tx_at=9,__vs::record=37
+crate::verif_tier_c! {
+#[kani::stub(crate::stream_rx::UserRx::add_remove, crate::stream_rx::UserRx::stub_add_remove)]
+#[kani::stub(crate::stream_rx::UserRx::assembler_empty, crate::stream_rx::UserRx::stub_assembler_empty)]
+#[kani::stub(crate::stream_rx::UserRx::selective_ack, crate::stream_rx::UserRx::stub_selective_ack)]
+#[kani::unwind(5)]
+fn vs_pim_data_packet() {
+    let mut t = make_vsock(VirtualSocketState::Established, VsConfig::default());
+    let rel: i16 = kani::any();
+    kani::assume(rel >= -3 && rel <= 3);
+    let expected = PEER_LAST.wrapping_add(1);
+    let seq = expected.wrapping_add(rel as u16);
+    let arr: u8 = kani::any();
+    let (n, b): (u8, u8) = (kani::any(), kani::any());
+    kani::assume(arr < 3 && n <= 3 && b <= 48);
+    let (was_empty, empty_after): (bool, bool) = (kani::any(), kani::any());
+    let has_sack: bool = kani::any();
+    let bits: u16 = kani::any();
+    let pending: bool = kani::any();
+    unsafe {
+        AR_RESULT = arr;
+        AR_SEQ = n as usize;
+        AR_BYTES = b as usize;
+        AE_SCRIPT = [was_empty, empty_after, empty_after, empty_after];
+        SACK_VALUE = if has_sack { Some(crate::raw::selective_ack::SelectiveAck::deserialize(&[bits as u8, (bits >> 8) as u8, 0, 0, 0, 0, 0, 0])) } else { None };
+        TX_MODE = if pending { 1 } else { 0 };
+    }
+    let h = hdr(Type::ST_DATA, seq, kani::any());
+    let w = cx_waker();
+    let mut cx = Context::from_waker(&w);
+    let r = t.vsock.process_incoming_message(&mut cx, UtpMessage { header: h, data: vec![1u8, 2, 3] });
+    let ok = r.is_ok();
+    std::mem::forget(r);
+    assert!(ok, "C10: a data packet never produces an error");
+    kani::cover!(rel > 0 && !pending && sent_n() == 1, "out-of-order packet acknowledged at once");
+    kani::cover!(rel == 0 && was_empty && empty_after && arr == 0, "plain in-order packet");
+    let (consumed_n, consumed_b) = if rel >= 0 && arr == 0 { (n as u16, b as usize) } else { (0, 0) };
+    let pos = PEER_LAST.wrapping_add(consumed_n);
+    assert!(t.vsock.last_consumed_remote_seq_nr == SeqNr(pos), "C04: the acknowledgement position advances by exactly the in-order sequence numbers consumed, never backwards");
+    if rel < 0 {
+        assert!(unsafe { AR_CALLS } == 0, "C01: a packet behind the cumulative position never reaches the reassembly queue");
+        assert!(t.vsock.consumed_but_unacked_bytes == usize::MAX, "C07: a duplicate forces an immediate ACK");
+        assert!(sent_n() == 0, "C07: the forced ACK is emitted by the ACK step of the same poll");
+    } else {
+        assert!(unsafe { AR_CALLS == 1 && AR_OFFSET == rel as usize && !AR_IS_FIN && AR_PLEN == 3 },
+            "C01: the payload is offered to the reassembly queue exactly once, at offset seq_nr - (last consumed + 1)");
+        let disorder = !was_empty || !empty_after;
+        if disorder {
+            if pending {
+                assert!(sent_n() == 0 && t.vsock.consumed_but_unacked_bytes == usize::MAX, "C07: with a blocked transport the immediate ACK stays pending for the next poll");
+            } else {
+                assert!(sent_n() == 1, "C07: an out-of-order or gap-filling packet is acknowledged immediately, in the same call");
+                let (sh, sn) = sent_header(0).unwrap();
+                assert!(sh.htype == Type::ST_STATE && sn == sent_total(0), "C11: the ACK is a bare state packet");
+                assert!(sh.ack_nr == SeqNr(pos), "C04: the ACK carries the highest in-order sequence number received");
+                assert!(sh.connection_id == SeqNr(CONN_ID_SEND), "C11: connection id owed to the peer");
+                match (sh.extensions.selective_ack, unsafe { SACK_VALUE }) {
+                    (None, None) => {}
+                    (Some(a), Some(bv)) => assert!(a.as_bytes()[0] == bv.as_bytes()[0] && a.as_bytes()[1] == bv.as_bytes()[1], "C04: the SACK bits are exactly those the reassembly queue reports"),
+                    _ => assert!(false, "C04: SACK attached exactly when the reassembly queue reports one"),
+                }
+                assert!(t.vsock.consumed_but_unacked_bytes == 0 && t.vsock.last_sent_ack_nr == SeqNr(pos), "C07: ACK bookkeeping reset by the emitted ACK");
+            }
+        } else {
+            assert!(sent_n() == 0, "C07: a plain in-order packet is not acknowledged inside packet processing");
+            assert!(t.vsock.consumed_but_unacked_bytes == consumed_b, "C07: unacknowledged bytes grow by the bytes consumed");
+        }
+    }
+    finish(t);
+}
+}
